@@ -16,4 +16,6 @@ MCBugInitEmpty == "BUG" \in DOMAIN IOEnv /\ IOEnv.BUG = "initempty"
 MCBugStaleInit == "BUG" \in DOMAIN IOEnv /\ IOEnv.BUG = "staleinit"
 MCBugRelinkDrop == "BUG" \in DOMAIN IOEnv /\ IOEnv.BUG = "relinkdrop"
 MCBugNoRepub == "BUG" \in DOMAIN IOEnv /\ IOEnv.BUG = "norepub"
+MCBugStaleChan == "BUG" \in DOMAIN IOEnv /\ IOEnv.BUG = "stalechan"
+DirectedStale == NoStaleChan \/ (PrintT(<<"DHIST", ToJson([steps |-> hist])>>) /\ FALSE)
 =============================================================================
